@@ -257,19 +257,22 @@ theorem specBody_agree (env : Spec.Env) (rec rec' : Spec.Rec) (scope : List Node
     (h : AgreeAt j rec rec') : specBody env rec' scope s j n = specBody env rec scope s j n := by
   have hh : ∀ t, rec' (scope ++ [s]) t j = rec (scope ++ [s]) t j := fun t => h.here _ t
   have he : ∀ t v, forget (rec' (scope ++ [s]) t v) = forget (rec (scope ++ [s]) t v) := fun t v => h.elsewhere _ t v
-  have e1 : Spec.kwUnevaluatedItems (rec' (scope ++ [s])) n j = Spec.kwUnevaluatedItems (rec (scope ++ [s])) n j := by
+  have e1 : Spec.kwUnevaluatedItems (rec' (scope ++ [s])) (Spec.vocab env.draft n) j =
+      Spec.kwUnevaluatedItems (rec (scope ++ [s])) (Spec.vocab env.draft n) j := by
     funext ev
-    exact child_congr (K := fun sub => Spec.kwUnevaluatedItems sub n j ev)
-      (fun sub => kwUnevaluatedItems_forget sub n j ev) _ _ he
-  have e2 : Spec.kwUnevaluatedProps (rec' (scope ++ [s])) n j = Spec.kwUnevaluatedProps (rec (scope ++ [s])) n j := by
+    exact child_congr (K := fun sub => Spec.kwUnevaluatedItems sub (Spec.vocab env.draft n) j ev)
+      (fun sub => kwUnevaluatedItems_forget sub _ j ev) _ _ he
+  have e2 : Spec.kwUnevaluatedProps (rec' (scope ++ [s])) (Spec.vocab env.draft n) j =
+      Spec.kwUnevaluatedProps (rec (scope ++ [s])) (Spec.vocab env.draft n) j := by
     funext ev
-    exact child_congr (K := fun sub => Spec.kwUnevaluatedProps sub n j ev)
-      (fun sub => kwUnevaluatedProps_forget sub n j ev) _ _ he
+    exact child_congr (K := fun sub => Spec.kwUnevaluatedProps sub (Spec.vocab env.draft n) j ev)
+      (fun sub => kwUnevaluatedProps_forget sub _ j ev) _ _ he
   unfold specBody kwList
   rw [kwRef_congr env _ _ n j hh, kwDynamicRef_congr env _ _ n j hh, kwAllOf_congr _ _ n j hh, kwAnyOf_congr _ _ n j hh,
     kwOneOf_congr _ _ n j hh, kwNot_congr _ _ n j hh, kwIf_congr _ _ n j hh, kwDependentSchemas_congr env _ _ n j hh,
     child_congr (K := fun sub => Spec.kwItems env sub n j) (fun sub => kwItems_forget env sub n j) _ _ he,
-    child_congr (K := fun sub => Spec.kwContains sub n j) (fun sub => kwContains_forget sub n j) _ _ he,
+    child_congr (K := fun sub => Spec.kwContains sub (Spec.vocab env.draft n) j)
+      (fun sub => kwContains_forget sub _ j) _ _ he,
     child_congr (K := fun sub => Spec.kwProps env sub n j) (fun sub => kwProps_forget env sub n j) _ _ he,
     child_congr (K := fun sub => Spec.kwPropertyNames sub n j) (fun sub => kwPropertyNames_forget sub n j) _ _ he,
     e1, e2]
